@@ -3,6 +3,8 @@ import vlib
 from vlib import hx
 from hubcommon import HubMode
 import c12
+import c02
+from tiecommon import TIE_DENY, TIE_TTLCODE, TIE_CHANMAP, TIE_NOTE, TIE_ASSUMPTION
 
 RULE = ("chanmap mode: op sequences add/deleteChild/deleteAndCloseChild/deleteParent/deleteAndCloseParent over <=3 parents "
         "(incl. empty name), 85% following the hub's discipline (fresh child + fresh channel per add; e.g. deny -> disconnect -> "
@@ -17,6 +19,10 @@ THEOREMS = [(f"ChanMap.{n}", "Relay.Props.C08ChanMap") for n in
            [("Hub.evicted_only_own_backlog", "Relay.Props.C05"), ("Hub.stays_member", "Relay.Props.C05"),
             ("Hub.no_silent_skip", "Relay.Props.C05"), ("Hub.run_inv", "Relay.Props.HubInv")]
 PARENTS = ["bk1", "bk2", ""]
+THEOREMS = THEOREMS + TIE_DENY + TIE_TTLCODE + TIE_CHANMAP
+RULE = TIE_NOTE + RULE
+ASSUMPTIONS = ASSUMPTIONS + [TIE_ASSUMPTION]
+
 
 
 class ChanMapMode(vlib.Mode):
@@ -106,5 +112,12 @@ class StressForC08(c12.StressMode):
         return vlib.run_cases_isolating([impl_exe, "stress"], cases, timeout=600, env=vlib.GOENV, chunk=1)
 
 
+class TtlForC08(c02.TtlMode):
+    """the code store's histories (incl. exchanging a stale, not yet swept code): no operation may hang or crash the store"""
+    def oracle(self, case, out):
+        return [(s, d) for s, d in super().oracle(case, out) if s == "crash"] + \
+               [("store-stuck", f"{l} -> {o}") for l, o in zip(case, out) if o in ("stuck", "dead")][:1]
+
+
 def modes(tier):
-    return [ChanMapMode(), HubMode("C08"), StressForC08()]
+    return [ChanMapMode(), HubMode("C08"), StressForC08(), TtlForC08()]
